@@ -259,6 +259,13 @@ class Ctx:
         self.driver = Driver()
         self.build: BuildReport | None = None
         self.t0 = time.time()
+        self.budget_s = float(os.environ.get('VERIF_BUDGET_S', 0) or (900 if tier == 'quick' else 5400))
+        self.stopped_early = False
+    def expired(self):
+        if time.time() - self.t0 > self.budget_s:
+            self.stopped_early = True
+            return True
+        return False
     def n(self, quick, thorough):
         return thorough if self.tier == 'thorough' else quick
     def sub_rng(self, tag):
@@ -308,6 +315,7 @@ def write_evidence(ctx: Ctx, res: Result, n_viol: int, extra_assumptions=()):
         'known_findings_replayed': [k[0] for k in res.known],
         'tables_regenerated': rep.tables_ok,
         'driver_lines': ctx.driver.lines,
+        'stopped_early_on_wall_clock_budget': ctx.stopped_early,
     }
     ev = {
         'property_id': ctx.pid, 'tier': ctx.tier, 'seed': ctx.seed, 'level': 'proof',
